@@ -742,4 +742,91 @@ func (c *conn) Close() error {""")]),
 			case MessageTwstat, *MessageTwstat:
 				if err := d.decode(elements[0]); err != nil {""", """			case MessageTwstat, *MessageTwstat:
 				if err := d.decode(elements[0]); err != nil {""")]),
+
+ # ---- C15
+ ("c15-wstat-path-from-name", "C15", [("ufs/dirent.go", "		ref.Path = rel\n", "		ref.Path = dir.Name\n")]),
+ ("c15-fullpath-no-clean-check", "C15", [("ufs/filesys.go", """	if path.Clean(p) != p { // removes ../ at root.
+		return "", p9p.MessageRerror{Ename: "Invalid path"}
+	}
+""", "")]),
+ ("c15-remove-no-root-test", "C15", [("ufs/dirent.go", """	if ref.Path == "/" || ref.Path == "\\\\" {
+		return p9p.MessageRerror{Ename: "cannot remove root"}
+	}
+""", "")]),
+ ("c15-create-join-base-directly", "C15", [("ufs/dirent.go", """	newpath, err := ref.fs.fullPath(newrel)
+	if err != nil { // should always succeed
+		return nil, nil, err
+	}
+""", """	newpath := ref.fs.Base + "/" + name
+""")]),
+ ("c15-rename-target-unchecked", "C15", [("ufs/dirent.go", """		newpath, err := ref.fs.fullPath(rel)
+		if err != nil {
+			return err
+		}
+		if err = syscall.Rename(ref.fullPath(), newpath); err != nil {""", """		newpath := ref.fs.Base + "/" + dir.Name
+		if err = syscall.Rename(ref.fullPath(), newpath); err != nil {""")]),
+ ("c15-fullpath-ignores-abs", "C15", [("ufs/filesys.go", """	if !path.IsAbs(p) || strings.Contains(p, "\\\\") {""", """	if strings.Contains(p, "\\\\") {""")]),
+ ("c15-session-walk-no-validpath", "C15", [("sfilesys.go", """	bsp := ValidPath(names)
+	if bsp < 0 { // check that path is normalized
+		return nil, MessageRerror{Ename: "Non-normalized path"}
+	}
+""", "")]),
+
+ # ---- C16
+ ("c16-validpath-no-containsany", "C16", [("path.go", """		} else {
+			if strings.ContainsAny(s, "\\\\/") {
+				return -1
+			}
+		}""", """		}""")]),
+ ("c16-validpath-only-slash", "C16", [("path.go", """			if strings.ContainsAny(s, "\\\\/") {
+				return -1
+			}
+		}
+	}
+	return n""", """			if strings.ContainsAny(s, "/") {
+				return -1
+			}
+		}
+	}
+	return n""")]),
+ ("c16-validpath-dotdot-anywhere", "C16", [("path.go", """			if n != i {
+				return -1
+			}
+			n++""", """			if n > i {
+				return -1
+			}
+			n++""")]),
+ ("c16-createname-accepts-dotdot", "C16", [("path.go", """len(name) == 0 || name == "." || name == ".." {""", """len(name) == 0 || name == "." {""")]),
+ ("c16-walkname-no-depth-bound", "C16", [("path.go", "	if bsp < 0 || bsp > depth {", "	if bsp < 0 || bsp > depth+1000 {")]),
+ ("c16-walkname-depth-off", "C16", [("path.go", """depth := strings.Count(dir[:len(dir)-1], "/")""", """depth := strings.Count(dir, "/")""")]),
+ ("c16-normalize-keeps-dot", "C16", [("path.go", """		if len(s) == 0 || s == "." { // skip
+			continue
+		}""", """		if len(s) == 0 { // skip
+			continue
+		}""")]),
+ ("c16-normalize-sep-only-slash", "C16", [("path.go", """		if strings.ContainsAny(s, "\\\\/") {
+			return nil, -1
+		}""", """		if strings.ContainsAny(s, "/") {
+			return nil, -1
+		}""")]),
+ ("c16-validpath-accepts-empty", "C16", [("path.go", """		if len(s) == 0 || s == "." {
+			return -1
+		} else if s == ".." {""", """		if s == "." {
+			return -1
+		} else if s == ".." {""")]),
+ ("c16-normalize-cursor-overflow", "C16", [("path.go", """	ans := make([]string, len(args))
+""", """	ans := make([]string, len(args)/2+1)
+""")]),
+]
+
+# Behaviour-preserving (for the named property) edits: the check must stay silent.
+BENIGN = [
+ ("c15-walk-concat", "C15", [("ufs/dirent.go", """	newpath, err := p9p.WalkName(ref.Path, names...)
+	if err != nil {
+		return nil, nil, err
+	}
+	next, err := ref.fs.newRef(newpath)""", """	newpath := ref.Path + "/" + names[0]
+	next, err := ref.fs.newRef(newpath)""")]),
+ ("c15-newref-stat-unvalidated", "C15", [("ufs/filesys.go", """	info, err := os.Stat(fpath)""", """	info, err := os.Stat(filepath.Join(fs.Base, p))
+	_ = fpath""")]),
 ]
